@@ -365,6 +365,11 @@ mod multiplex {
                                             indices_to_remove.push(i);
                                             break;
                                         }
+
+                                        // everything that follows belongs to the upgraded handler
+                                        if upgraded_iface.is_some() {
+                                            break;
+                                        }
                                     }
                                     Err(e) => {
                                         let err = e.kind();
